@@ -89,10 +89,22 @@ def h_ptb_prefix(d, shape, focus, n):
     return ('ptb.truncated-line-accepted', sym_str(pre), k)
 
 
-def _annotate(d, text_cat, name, mode):
-    """bank-style dependency annotation appended to a category text"""
+def _annotate(d, text_cat, name, mode, cat=None):
+    """bank-style dependency annotation: appended to a category text (mode 1, 2: that many symbolic characters), or after every atom of
+    the category as the bank writes it (mode 'atoms': S[..]{x}\\NP[..]{y}; the first two annotations of a category symbolic)"""
     if mode == 0:
         return text_cat
+    if mode == 'atoms':
+        k = [0]
+
+        def rec(c, top):
+            if c.is_functor:
+                t = sjoin('', [rec(c.left, False), c.slash, rec(c.right, False)])
+                return t if top else sjoin('', ['(', t, ')'])
+            k[0] += 1
+            a = d.string('%s.%d' % (name, k[0]), 1, PLAIN) if k[0] <= 2 else 'I%d' % k[0]
+            return sjoin('', [sym_str(c), '{', a, '}'])
+        return rec(cat, True)
     a = '{' + d.string(name, mode, PLAIN) + '}'
     return text_cat + a
 
@@ -112,7 +124,7 @@ def h_ja(d, shape, focus, n, ann, suffix):
 
         def rec(node):
             cnt[0] += 1
-            c = _annotate(d, sym_str(node.cat), 'ann%d' % cnt[0], ann)
+            c = _annotate(d, sym_str(node.cat), 'ann%d' % cnt[0], ann, node.cat)
             if node.is_leaf:
                 if suffix:
                     c = c + '_' + d.string('suf%d' % cnt[0], 1, PLAIN)
@@ -154,7 +166,7 @@ def obligations(tier):
                 yield Obligation('C20.ptb[%s,leaf=%d,word=%r]' % (shape_name(s), i, br), 'h_ptb', dict(shape=s, focus=[i], n=1, fixed=br), cost=1)
             if nl <= 2 or not q:
                 yield Obligation('C20.ptb-prefix[%s,leaf=%d]' % (shape_name(s), i), 'h_ptb_prefix', dict(shape=s, focus=[i], n=1), cost=8)
-        for ann, suffix in ((1, False), (2, True), (0, True)):
-            if q and nl > 2 and ann == 2:
+        for ann, suffix in ((1, False), (2, True), (0, True), ('atoms', False)):
+            if q and nl > 2 and ann in (2, 'atoms'):
                 continue
-            yield Obligation('C20.ja-annotated[%s,ann=%d,suffix=%s]' % (shape_name(s), ann, suffix), 'h_ja', dict(shape=s, focus=[0], n=1, ann=ann, suffix=suffix), cost=6)
+            yield Obligation('C20.ja-annotated[%s,ann=%s,suffix=%s]' % (shape_name(s), ann, suffix), 'h_ja', dict(shape=s, focus=[0], n=1, ann=ann, suffix=suffix), cost=6)
